@@ -27,7 +27,8 @@ CONFIG = {
                     "collision family (Bar nested in Foo / top-level Foo_Bar, enum E nested in Foo / message Foo_E, holders, fresh "
                     "types) against the claim model J5V/Conc/Clash.lean; oracle: every answer — and the client property lists "
                     "(flattened fields expanded, JSON names, proto paths) of everything it reaches — equals that of a fresh cache, no "
-                    "unlinked ref in an answer, no placeholder left; every op under a 120 s watchdog (hang = crash-or-deadlock). "
+                    "unlinked ref in an answer, no placeholder left; every op under a 120 s watchdog (hang = crash-or-deadlock; on expiry an op whose goroutine is running / runnable is "
+                    "slow, not stuck, and gets up to six more periods). "
                     "Non-trivial = at least one request on a warm cache over a graph with a cycle, a shared sub-schema or a failing node; "
                     "distinct by op text.",
         },
